@@ -81,6 +81,7 @@ class Executor(ValueOps, InstrOps):
         self.path_kills = 0
         self.iface_models = {}
         self.init_eval_stack = set()
+        self.init_state = {}
         self.cur_thread = None
         self.trace = self.opts.get("trace", False)
         from . import models as _m
@@ -201,34 +202,92 @@ class Executor(ValueOps, InstrOps):
                 o.val = IfaceV([(True, "verif.global:" + name, Opaque(ident, name))])
         return o
 
-    def _eval_global_init(self, init, name, o):
-        # find Store to this global in init
-        for b in init["blocks"]:
-            for ins in b["instrs"]:
-                if ins["op"] == "Store" and ins["addr"]["k"] == "global" and ins["addr"]["n"] == name:
-                    try:
-                        o.val = self._eval_init_value(init, ins["val"], 0)
-                        return True
-                    except Unsupported as e:
-                        self.note("global-init", "%s: %s" % (name, e))
-                        return False
-        return False
+    def _init_root(self, init, op):
+        depth = 0
+        while depth < 30:
+            depth += 1
+            if op["k"] == "global":
+                return ("global", op["n"])
+            if op["k"] != "reg":
+                return None
+            ins = init["_defs"].get(op["n"])
+            if ins is None:
+                return None
+            if ins["op"] in ("FieldAddr", "IndexAddr"):
+                op = ins["x"]
+                continue
+            if ins["op"] == "Alloc":
+                return ("alloc", op["n"])
+            return None
+        return None
 
-    def _eval_init_value(self, init, op, depth):
-        if depth > 40:
+    def _eval_global_init(self, init, name, o):
+        """lazy evaluation of the slice of pkg.init that initialises one global: every Store whose address is
+        rooted at the global, or at an allocation reachable from an already evaluated initialiser value."""
+        key = init["name"]
+        st = self.init_state.setdefault(key, {"env": {}, "done": set(), "stores": None})
+        if st["stores"] is None:
+            stores = []
+            for b in init["blocks"]:
+                for i, ins in enumerate(b["instrs"]):
+                    if ins["op"] in ("Store", "MapUpdate"):
+                        aop = ins["addr"] if ins["op"] == "Store" else ins["map"]
+                        stores.append((b["index"], i, ins, self._init_root(init, aop)))
+            st["stores"] = stores
+        found = False
+        progress = True
+        roots = {("global", name)}
+        try:
+            while progress:
+                progress = False
+                for bi, i, ins, root in st["stores"]:
+                    if root is None or (bi, i) in st["done"]:
+                        continue
+                    if root in roots or (root[0] == "alloc" and root[1] in st["env"] and ("alloc", root[1]) in st.setdefault("live", set())):
+                        st["done"].add((bi, i))
+                        env = st["env"]
+                        for f in self._operand_fields(ins):
+                            if f["k"] == "reg" and f["n"] not in env:
+                                env[f["n"]] = self._eval_init_value(init, f, 0, st)
+                        fr = Frame(init, 0, "init")
+                        self.exec_instr(fr, env, ins, True, {"guard": True})
+                        if root == ("global", name):
+                            found = True
+                        progress = True
+        except Unsupported as e:
+            self.note("global-init", "%s: %s" % (name, e))
+            return found
+        return found
+
+    def _eval_init_value(self, init, op, depth, st):
+        if depth > 60:
             raise Unsupported("init chain too deep")
         if op["k"] != "reg":
             return self.val({}, op)
+        env = st["env"]
+        if op["n"] in env:
+            return env[op["n"]]
         ins = init["_defs"].get(op["n"])
         if ins is None:
             raise Unsupported("init: no def for " + op["n"])
-        env = {}
+        if ins["op"] == "Phi":
+            raise Unsupported("init: phi")
         for f in self._operand_fields(ins):
-            if f["k"] == "reg":
-                env[f["n"]] = self._eval_init_value(init, f, depth + 1)
+            if f["k"] == "reg" and f["n"] not in env:
+                env[f["n"]] = self._eval_init_value(init, f, depth + 1, st)
         fr = Frame(init, 0, "init")
-        out = {}
-        self.exec_instr(fr, env, ins, True, out)
+        self.exec_instr(fr, env, ins, True, {"guard": True})
+        if ins["op"] in ("Alloc", "MakeMap", "MakeSlice"):
+            st.setdefault("live", set()).add(("alloc", op["n"]))
+        if ins["op"] == "Alloc":
+            # composite literals: run the element/field stores into this allocation before anyone reads it
+            for bi, i, sins, root in st["stores"]:
+                if root == ("alloc", op["n"]) and (bi, i) not in st["done"]:
+                    st["done"].add((bi, i))
+                    for f in self._operand_fields(sins):
+                        if f["k"] == "reg" and f["n"] not in env:
+                            env[f["n"]] = self._eval_init_value(init, f, depth + 1, st)
+                    self.exec_instr(Frame(init, 0, "init"), env, sins, True, {"guard": True})
         if "reg" in ins:
             return env[ins["reg"]]
         raise Unsupported("init: instruction without value")
